@@ -1,0 +1,65 @@
+//go:build verif
+
+package parser
+
+// Contracts for the verification machinery in /verif (comment-only file;
+// excluded from every build without the "verif" tag).
+
+// ---- C09 / C02: the parser's panic protocol ----
+// ParseFile and ParseExpr recover a panic exactly when parser.panicking is set
+// (their deferred functions: `if p.panicking { _ = recover() }`). So every
+// explicit panic inside the parser must either be unreachable or happen only
+// after panicking has been set; otherwise malformed input crashes the caller.
+
+//@ func errors.Errors
+//@   assumed A-int: flattens an error list; reads only
+//@ func errors.Append
+//@   assumed A-int: list constructor
+//@ func errors.Newf
+//@   assumed A-int: error constructor
+//@   ensures result != nil
+//@ func (errors.Error).Position
+//@   assumed A-int: accessor
+//@ func (token.Pos).Line
+//@   assumed A-int: accessor
+
+//@ func (*parser).errf
+//@   requires p != nil
+//@   effect panic#0 requires p.panicking
+//@   ensures [sticky] old(p.panicking) ==> p.panicking
+//@   assigns p.errors, p.panicking
+
+//@ func incNestLevel
+//@   requires p != nil
+//@   effect panic#0 requires p.panicking
+//@   ensures [level] result == p && p.nestLevel == old(p.nestLevel) + 1 && p.nestLevel <= maxNestLevel
+//@   assigns p.nestLevel, p.errors, p.panicking
+
+//@ func (*parser).freeCommentState
+//@   assumed A-int: returns a comment state to the free list
+//@ func ast.AddComment
+//@   assumed A-int: attaches a comment group to a node
+//@ func (*parser).closeList
+//@   nocheck bounds frame
+//@   requires p != nil && p.comments != nil
+//@   effect panic#0 requires p.panicking
+//@   assigns heap
+
+//@ func (*commentState).closeNode
+//@   nocheck bounds frame
+//@   requires p != nil && c != nil
+//@   effect panic#0 requires p.panicking
+//@   assigns heap
+
+// a parenthesised expression never survives unparen, so the "unreachable" panic
+// of checkExpr is unreachable
+//@ func unparen
+//@   ensures [noparen] !isType(result, *ast.ParenExpr)
+//@   assigns nothing
+
+//@ func (*parser).errorExpected
+//@   assumed A-int: reports "expected X"; sets panicking before it panics (through errf)
+//@ func (*parser).checkExpr
+//@   requires p != nil
+//@   assigns heap
+
